@@ -11,6 +11,10 @@ NOTE = ("claims are over the reals within the bounds stated in the evidence file
         "classes and term transformations of /verif/vf (validated each run against the real code on floats), stub contracts listed in the evidence")
 
 CHECKS = {
+    "C12": ("5 C12", "Membrane.get_permeance / calculate_activation_energy with n = 1..3 (thorough 4) symbolic experiments per component in any "
+                     "order and unit, energy stated / stated per experiment / regressed (lstsq by its normal equations): Arrhenius factor of the "
+                     "nearest experiment, measured value at experiment temperatures, regression recovers E on a line, independence of the "
+                     "reference experiment; selectivity M2/M1 law; pure-component flux per mode and its rejection of a double specification"),
     "C10": ("5 C10", "ranking argument on the loop extracted from the AST of the current source (one iteration from a havocked head, callee "
                      "arbitrary: a loop-carried integer increases and is bounded on every continuing leaf => bounded for every input, mode and "
                      "model) + solver-found 2-cycles of the permeate-pressure map replayed on the real code under a counting wrapper; every "
